@@ -290,7 +290,18 @@ def execute(sc):
         ctl.point('main-returned')
         if ls.get('shutdown_delay', 0) > 0:
             ctl.sleep(ls['shutdown_delay'])   # a thread that is slow to get to its clean-up
-        if life in ('full', 'early'):
+        if life == 'early_resume':
+            # the thread comes back to its loop later (loop.run_until_complete(something_else)): whatever was left
+            # pending goes on; optionally the computing caller is cancelled first, as a program may do
+            if ls.get('resume_cancel') is not None:
+                do_cancel(ls['resume_cancel'])
+
+            async def rest():
+                if tasks:
+                    await asyncio.gather(*tasks.values(), return_exceptions=True)
+            loop.run_until_complete(rest())
+            ctl.point('resumed-main-returned')
+        if life in ('full', 'early', 'early_resume'):
             def p(label):
                 if label == 'cancel':
                     # what asyncio.run does next: cancel every leftover task of this loop
